@@ -198,6 +198,8 @@ def judge_3d(case, rec):
         p2 = lib.cube(zz9enc.encode(sv2, q2), case["transforms"], case["population"],
                       case["mask_size"]).partitions[0]
         compare_parts(p3, p2, rec, "slice %d:" % k)
+        if tdim.kind == "cat":
+            label = tdim.labels()[k]  # enum-backed kinds are labelled by their value
         want_name = "%s: %s" % (tvar["name"], label)
         rec.compared()
         if p3.table_name != want_name:
